@@ -277,6 +277,58 @@ def correspondence_scalar(ctx, rng, n_obj):
     return res
 
 
+# ---- SPolynomial(...).abel at sampled pixels vs the model (model/SPoly.v) by Interval ----
+
+def correspondence_spoly(ctx, rng, n_obj, n_px):
+    from abel.tools.polynomial import SPolynomial
+    goals = []
+    for oi in range(n_obj):
+        R, C, rmin, rmax, c, r0, s = gen_spoly_args(rng)
+        if not np.any(c):
+            c[0, 0] = 1.0
+        P = SPolynomial(R.copy(), C.copy(), rmin, rmax, c.copy(), r0, s)
+        flat = [idx for idx in np.ndindex(R.shape) if 0 < R[idx] < rmax]
+        if not flat:
+            continue
+        cols = vlib.list_lit([qlist(col)[:-2] for col in np.asarray(c, float).T]) + '%Q'
+        for t in rng.choice(len(flat), size=min(len(flat), n_px), replace=False):
+            idx = flat[int(t)]
+            r, cs, v = float(R[idx]), float(C[idx]), float(P.abel[idx])
+            _, _, _, sc = spoly_reference(np.array([r]), np.array([cs]), rmin, rmax, c, r0, s)
+            tag = (R.shape, idx, rmin, rmax, np.asarray(c).tolist(), r0, s, r, cs)
+            goals.append((tag, 'Lemma sp_%d_%d : Rabs (sp_abelQ_at (sp_prepareQ %s %s%%Q %s%%Q) %s%%Q %s%%Q %s%%Q %s%%Q - Q2R %s%%Q) <= Q2R %s%%Q.\n'
+                               'Proof. sp_eval. Qed.'
+                          % (oi, len(goals), cols, Q(r0), Q(s), Q(r), Q(cs), Q(max(rmin, 0.0)), Q(rmax), Q(v),
+                             Q(tol_q(float(sc[0]) + abs(v) * 1e-3 + 1e-6, 1e-9)))))
+    gshard = 4
+    gtexts = []
+    line_of = {}
+    for k0 in range(0, len(goals), gshard):
+        name = 'C10_spoly_%03d' % (k0 // gshard)
+        lines = (CASE_HEADER.rstrip('\n').split('\n') + ['From PA Require Import model.SPoly.', 'Open Scope R_scope.'])
+        for tg, gl in goals[k0:k0 + gshard]:
+            for ln in gl.split('\n'):
+                lines.append(ln)
+                line_of[(name, len(lines))] = tg
+        gtexts.append((name, '\n'.join(lines) + '\n'))
+    outs = vlib.coq_eval_many(gtexts, timeout=1500)
+    res = dict(goals=len(goals), ok=0, bad=[], errors=[])
+    for k0, (name, _) in enumerate(gtexts):
+        rc, out = outs[name]
+        chunk = [t for t, _ in goals[k0 * gshard:(k0 + 1) * gshard]]
+        if rc == 0:
+            res['ok'] += len(chunk)
+            continue
+        m = re.search(r'File "[^"]*%s\.v", line (\d+)' % name, out)
+        if m and (name, int(m.group(1))) in line_of:
+            tg = line_of[(name, int(m.group(1)))]
+            res['ok'] += chunk.index(tg)
+            res['bad'].append(tg)
+        else:
+            res['errors'].append((name, out[-400:]))
+    return res
+
+
 # ---- Angular: exact comparison over Q -------------------------------------
 
 def small_coeffs(rng, n):
@@ -574,8 +626,9 @@ def run(ctx):
                        + ', '.join(pr['axioms']),
                        'Abel f Rm x is defined as 2 * RInt (fun y => f (sqrt (x^2+y^2))) 0 (sqrt (Rm^2-x^2)) '
                        '(equivalence with the singular textbook form by substitution is not proved)',
-                       'the Q instance (executed) and the R instance (theorems) of model/Poly.v are the same Section code; '
-                       'Q2R-commutation is proved for the Abel formula part (abel_of_data_correct), not for prepare',
+                       'the Q instance (executed) of model/Poly.v equals the R instance (theorems) on rational inputs: proved '
+                       '(C10_model_Q2R_func, C10_model_Q2R_abel); for SPolynomial the per-column preparation over Q is the same '
+                       'Section code as over R (not proved), the abel formula part is proved (C10_spoly_eval_sound)',
                        'scipy.integrate.quad (search oracle) and scipy.special.legendre / PPoly.from_spline (external)'])
     broken = not pr['ok'] or bool(gen_err)
     # 2. correspondence
@@ -584,16 +637,18 @@ def run(ctx):
     ca = correspondence_angular(ctx, rng, 150 if ctx.quick else 1500)
     cg = correspondence_ag(ctx, rng, 2 if ctx.quick else 12)
     cs = correspondence_scalar(ctx, rng, 12 if ctx.quick else 90)
+    csp = correspondence_spoly(ctx, rng, 8 if ctx.quick else 60, 2)
     corr_bad = bool(cp['func_bad'] or cp['abel_bad'] or cp['errors'] or ca['bad'] or ca['errors'] or cg['bad']
-                    or cs['bad'] or cs['errors'])
+                    or cs['bad'] or cs['errors'] or csp['bad'] or csp['errors'])
+    ctx.cov['correspondence_spolynomial'] = dict(abel_goals=csp['goals'], abel_ok=csp['ok'])
     ctx.cov['correspondence_scalar_ops'] = dict(func_checks=cs['q_items'], func_ok=cs['q_ok'], abel_goals=cs['goals'],
                                                 abel_ok=cs['g_ok'])
-    ctx.cov.update(traces_validated_against_impl=cp['func_ok'] + cp['abel_ok'] + ca['ok'] + cs['q_ok'] + cs['g_ok'],
+    ctx.cov.update(traces_validated_against_impl=cp['func_ok'] + cp['abel_ok'] + ca['ok'] + cs['q_ok'] + cs['g_ok'] + csp['ok'],
                    correspondence=dict(polynomial_objects=cp['n_obj'], func_ok=cp['func_ok'], abel_goals=cp['abel_goals'],
                                        abel_ok=cp['abel_ok'], angular_cases=ca['n'], angular_ok=ca['ok'],
                                        approx_gaussian_random_tols=cg['tols'], approx_gaussian_goals=cg['goals'],
                                        approx_gaussian_table_goals=n_ag_total, approx_gaussian_table_goals_compiled_this_run=n_ag, angular_sub_variant=variant),
-                   per_instance_goals=cp['abel_goals'] + cg['goals'] + n_ag + cs['goals'])
+                   per_instance_goals=cp['abel_goals'] + cg['goals'] + n_ag + cs['goals'] + csp['goals'])
     # 3. search
     budget = (30 if ctx.quick else 300) * (4 if (broken or corr_bad) else 1)
     hits, n_eval, n_distinct = search(ctx, rng, budget)
@@ -640,6 +695,11 @@ def run(ctx):
                                                           float(objs[oi][2][i])))
         if ca['bad']:
             detail.append('Angular case %r' % (ca['descr'][ca['bad'][0]],))
+        if csp['bad']:
+            detail.append('SPolynomial abel not within tolerance of the model (shape, pixel, r_min, r_max, c, r_0, s, r, cos): %r'
+                          % (csp['bad'][0],))
+        for e in csp['errors'][:1]:
+            detail.append('coq error in %s: %s' % e)
         if cs['bad']:
             detail.append('scalar operator on PiecewisePolynomial (op, a, pieces, grid, part): %r' % (cs['bad'][0],))
         for e in cs['errors'][:1]:
@@ -659,8 +719,10 @@ def run(ctx):
         'Angular add/sub/mul/scal/cos/cossin/legendre evaluation homomorphisms',
         'PER-INSTANCE machine-checked goals: Polynomial.abel sampled grid points (Interval), ApproxGaussian segments for 7 '
         'tabulated and the sampled tolerances (Interval); ApproxGaussian for all tol is not a theorem (node search not modelled)',
-        'ONLY SWEPT NUMERICALLY (scipy quadrature, rtol 1e-9 of the absolute terms): SPolynomial, PiecewiseSPolynomial, '
-        'bspline (relies on scipy PPoly.from_spline), copy independence, scalar multiplication/division',
+        'SPolynomial: theorems for every pixel (antiderivative families for all k, .abel = Abel2); tie: .abel at sampled '
+        'pixels by Interval goals against the model (arctangent form proved equal to the arccos form of the code)',
+        'ONLY SWEPT NUMERICALLY (scipy quadrature, rtol 1e-9 of the absolute terms): SPolynomial.func, PiecewiseSPolynomial '
+        'as a sum, bspline (relies on scipy PPoly.from_spline), copy independence (memory)',
         'tolerances: func 1e-11, abel 1e-10 relative to the sum of the absolute values of the terms the code adds; limits '
         'closer than 1e-3 (relative) to a grid value but not equal to it are not generated (sqrt cancellation)',
     ]
